@@ -32,7 +32,10 @@ class PollerModel:
         self.t_refid, self.cfg_refid, self.phc_val = I('tracking_ref_id'), I('configured_ref_id'), I('phc_error_bound')
         self.recv_ok, self.recv_msg, self.recv_err = B('recv_ok'), I('recv_msg'), I('recv_err')
         self.t_ref_ns = I('tracking_ref_time_ns')
-        self.tracking = Struct([self.t_refid] + [Opaque('tracking.%d' % i) if i != 4 else Struct([self.t_ref_ns]) for i in range(1, 14)])      # field 4: ref_time
+        self.t_stratum, self.t_leap = I('tracking_stratum'), I('tracking_leap_status')
+        # fields: 0 ref_id, 2 stratum, 3 leap_status, 4 ref_time are symbolic; the address and the float fields are opaque
+        special = {2: self.t_stratum, 3: self.t_leap, 4: Struct([self.t_ref_ns])}
+        self.tracking = Struct([self.t_refid] + [special.get(i, Opaque('tracking.%d' % i)) for i in range(1, 14)])
         self.ngrace = 0
 
     def env(self):
@@ -74,7 +77,8 @@ class PollerModel:
         prog = self.prog
         ex = Exec(prog, env=self.env(), opaque_calls=[r'Arguments(::<.*>)?::from_str$', r'Arguments(::<.*>)?::new'])
         ex.const_hooks = time_consts()
-        ex.side += [self.recv_msg >= 0, self.recv_msg < len(self.msg), self.recv_err >= 0, self.recv_err <= 1]
+        ex.side += [self.recv_msg >= 0, self.recv_msg < len(self.msg), self.recv_err >= 0, self.recv_err <= 1, self.t_stratum >= 0, self.t_stratum < 65536, self.t_leap >= 0, self.t_leap < 65536,
+                    self.t_ref_ns >= 0]
         fn = prog.find1('run_clock_error_bound_poller', crate='clock_bound_d')
         ctx = Struct([Opaque('channel_id'), Opaque('mbox'), Opaque('dbox')])
         phc_info = Enum(z3.If(self.phc_cfg, z3.IntVal(1), z3.IntVal(0)), {'Some': Struct([Struct([self.cfg_refid, Opaque('sysfs_path')])]), 'None': UNIT})
@@ -139,7 +143,9 @@ def poller_table(ck, prog, mir_wall, tier, seed, only_phc=False):
         some, grace, cfg, phc_ok = [bool(mval(m, x)) for x in (pm.tracking_some, pm.grace, pm.phc_cfg, pm.phc_ok)]
         gb = bool(mval(m, pm.grace_before))
         cfg_id, t_id, phc_val = mval(m, pm.cfg_refid), mval(m, pm.t_refid), mval(m, pm.phc_val)
-        out = rp.ask('poller %d %s %d %d %d %s' % (some, '%d' % grace if gb == grace else ('10' if gb else '01'), cfg, cfg_id, t_id, ('ok:%d' % phc_val) if phc_ok else 'missing'))
+        strat = mval(m, pm.t_stratum)
+        strat_arg = '' if strat in (None, 1) else ' - stratum=%d' % strat
+        out = rp.ask('poller %d %s %d %d %d %s%s' % (some, '%d' % grace if gb == grace else ('10' if gb else '01'), cfg, cfg_id, t_id, ('ok:%d' % phc_val) if phc_ok else 'missing', strat_arg))
         if not out.startswith('ok'):
             return None
         f = dict(x.split('=', 1) for x in out.split()[1:] if '=' in x)
@@ -156,6 +162,17 @@ def poller_table(ck, prog, mir_wall, tier, seed, only_phc=False):
                 stats[1] += 1
                 ck.violation('poller-message', 'two successive polls of the real poller loop with the same report (PHC configured=%s, configured ref id=%d, report ref id=%d); the PHC error-bound file held %s at the first poll and %s at the second: the second message is %s ; documented: %s'
                              % (cfg, cfg_id, t_id, first, ('%d' % phc_val) if phc_ok else 'nothing readable', msgs2[1], want), {'cmd': 'poller', 'native': out2})
+                return 'message'
+        if f.get('n') == '1' and got.startswith(want) and getattr(S, 'carried_struct', None):
+            # cached state again: an answered poll, then a poll chronyd does not answer
+            out3 = rp.ask('poller 1 %s %d %d %d %s second=silent' % ('%d' % grace if gb == grace else ('10' if gb else '01'), cfg, cfg_id, t_id, ('ok:%d' % phc_val) if phc_ok else 'missing'))
+            f3 = dict(x.split('=', 1) for x in out3.split()[1:] if '=' in x) if out3.startswith('ok') else {}
+            msgs3 = f3.get('msgs', '').split('|')
+            want3 = expected_msg(False, grace, cfg, cfg_id, t_id, phc_ok, phc_val)
+            if f3.get('n') == '2' and not msgs3[1].startswith(want3):
+                stats[1] += 1
+                ck.violation('poller-message', 'an answered poll followed by a poll chronyd does not answer (within grace=%s): the second message of the real poller loop is %s ; documented: %s' % (grace, msgs3[1], want3),
+                             {'cmd': 'poller', 'native': out3})
                 return 'message'
         if f.get('n') != '1' or not got.startswith(want):
             stats[1] += 1
@@ -440,6 +457,17 @@ def poller_order_half(ck, prog, seed):
             ck.violation('poller-read-order', 'real poller loop (chronyd answered=%s, PHC configured=%s, ids %d/%d, PHC read ok=%s): %s' % (some, cfg, cfg_id, t_id, phc_ok, '; '.join(bad)), {'cmd': 'poller', 'native': out})
             return bad[0]
         return None
+    def confirm_stale_report(m):
+        """an answered poll, then a poll chronyd does not answer: no report may be sent for the second one"""
+        for gr in ('1', '0'):
+            out = rpo.ask('poller 1 %s 0 0 7 missing second=silent' % gr)
+            f = dict(x.split('=', 1) for x in out.split()[1:] if '=' in x) if out.startswith('ok') else {}
+            msgs = f.get('msgs', '').split('|')
+            if f.get('n') == '2' and msgs[1].startswith('ClockErrorBoundData'):
+                ck.violation('poller-read-order', 'an answered poll followed by a poll chronyd does not answer (within grace=%s): the real poller loop sends %s for the second poll - a report obtained by the first poll\'s request, published under an as-of instant read after that request'
+                             % (gr, msgs[1]), {'cmd': 'poller', 'native': out})
+                return 'stale-report'
+        return None
     for g in S.iteration:
         for a in g.alts:
             n += 1
@@ -461,6 +489,11 @@ def poller_order_half(ck, prog, seed):
                     # well-formed timespec (an implementation that back-dates the reading stays on the pessimistic side)
                     pr.prove_cegar(label + ': the as-of instant attached to the report is not later than that earlier clock reading (and well formed)', z3.And(a.guard, e.args[1].disc() == M['ClockErrorBoundData']),
                                    z3.And(ts.f[0] * NS + ts.f[1] <= pm.as_s * NS + pm.as_n, ts.f[1] >= 0, ts.f[1] < NS), confirm_order, lambda m: [])
+                    # the report that travels with this as-of is the one chronyd gave in answer to THIS poll's query (a remembered report
+                    # from an earlier poll would be published under an as-of read after the request that produced it)
+                    rep = tup.f[0]
+                    same_report = z3.And(pm.tracking_some, rep.f[0] == pm.t_refid) if isinstance(rep, Struct) and isinstance(rep.f[0], z3.ExprRef) else z3.BoolVal(False)
+                    pr.prove_cegar(label + ': the report sent with that as-of is the answer to this poll\'s query', z3.And(a.guard, e.args[1].disc() == M['ClockErrorBoundData']), same_report, confirm_stale_report, lambda m: [])
     rpo.close()
     ck.absorb(pr, 'daemon: ')
     return pm
@@ -470,7 +503,15 @@ def check_c12(tier, seed):
     ck = Check('C12', tier, seed)
     prog, mir_wall = load_dlib_program()
     pm = poller_order_half(ck, prog, seed)
-    # client half: ClockErrorBound::now() reads REALTIME first, MONOTONIC second, and uses them in these roles
+    client_order_half(ck, seed)
+    fin(ck, pm, mir_wall)
+    ck.cov['bounds'] = {'poller': 'all paths of one loop iteration', 'client': 'all return paths of ClockErrorBound::now() over the C05 domain', 'delays': 'the order is structural: it holds for every delay between the steps'}
+    return ck.finish()
+
+
+def client_order_half(ck, seed):
+    """client half of C12 (also an interface fact of C01): ClockErrorBound::now() reads REALTIME first, the monotonic clock second,
+    and centres the interval on that first reading"""
     from .client_now import load_shm_program, NowModel, ts_ns
     prog2, w2 = load_shm_program()
     nm = NowModel(prog2)
@@ -513,6 +554,3 @@ def check_c12(tier, seed):
         rp.close()
         if not found:
             ck.inconclusive.append('client-side clause failed in the encoding but the native runs are centred on the first realtime reading')
-    fin(ck, pm, mir_wall)
-    ck.cov['bounds'] = {'poller': 'all paths of one loop iteration', 'client': 'all return paths of ClockErrorBound::now() over the C05 domain', 'delays': 'the order is structural: it holds for every delay between the steps'}
-    return ck.finish()
